@@ -780,6 +780,7 @@ func c131dec(c *an.Ctx, p *an.Prog) {
 			bad = append(bad, "nil returned without i >= len(parts) (too few parts accepted)")
 		}
 	})
+	bad = append(bad, scanOnlyWhileNotFull(fn)...)
 	c.Check(len(bad) == 0 && nStore == 1 && nOK > 0, "C13.1", fnKey(fn)+"|strip-and-count", p.Pos(fn.Pos()), "tokens from the split function, stored minus exactly 2 bytes; success only with all parts and no scanner error", strings.Join(uniqS(bad), "; "))
 }
 
@@ -909,4 +910,105 @@ func saslScannerCapacity(c *an.Ctx, p *an.Prog, rule string) {
 		}
 	}
 	c.Check(len(bad) == 0, rule, "sasl-decoder|token-capacity", "sasl/sasl_encoding.go", fmt.Sprintf("%d explicit scanner buffer limits, none below MaxRequestLength+2 (bufio's default is 64 KiB)", n), strings.Join(uniqS(bad), "; "))
+}
+
+// scanOnlyWhileNotFull: inside the decode loop the scanner is asked for another token only while a part is still
+// missing. A Scan() after the last part was stored consumes bytes that are not part of the message (and blocks a
+// handler whose client waits for the reply). Two shapes establish it: the counter is compared with len(parts) before
+// the call in the same iteration, or every iteration that continues has compared the next counter value with it.
+func scanOnlyWhileNotFull(fn *ssa.Function) []string {
+	var bad []string
+	if len(fn.Params) < 2 {
+		return nil
+	}
+	for _, h := range loopHeaders(fn) {
+		// the counter: the header phi used as index of the store into parts
+		var phi *ssa.Phi
+		for _, in := range an.DeepInstrs(fn) {
+			if st, ok := in.(*ssa.Store); ok {
+				if ia, ok := st.Addr.(*ssa.IndexAddr); ok {
+					if ph, ok := ia.Index.(*ssa.Phi); ok && ph.Block() == h {
+						phi = ph
+					}
+				}
+			}
+		}
+		if phi == nil {
+			continue
+		}
+		ltLen := func(s *an.PathState, xk string) bool {
+			pk := s.T(fn.Params[1]).K
+			isLen := func(t *an.Term) bool {
+				if t == nil || !t.IsCallTo("builtin len") {
+					return false
+				}
+				lc, _ := t.CallOf()
+				return lc.Args[0].K == pk
+			}
+			for _, a := range s.Atoms {
+				if a.A == nil || a.B == nil {
+					continue
+				}
+				if (a.Op == "<" || a.Op == "!=") && a.A.K == xk && isLen(a.B) {
+					return true
+				}
+				if (a.Op == ">" || a.Op == "!=") && isLen(a.A) && a.B.K == xk {
+					return true
+				}
+			}
+			return false
+		}
+		for _, sc := range an.CallsTo(fn, "(*bufio.Scanner).Scan") {
+			call, ok := sc.(*ssa.Call)
+			if !ok || !h.Dominates(call.Block()) || !blockReaches(call.Block(), h) {
+				continue
+			}
+			formA, nA := true, 0
+			an.EnumPathsTo(fn, h, call, nil, func(s *an.PathState) {
+				nA++
+				if !ltLen(s, s.T(phi).K) {
+					formA = false
+				}
+			})
+			if formA && nA > 0 {
+				continue
+			}
+			formB, nB := true, 0
+			an.EnumPathsTo(fn, h, nil, h, func(s *an.PathState) {
+				if s.StopBlock == nil {
+					return
+				}
+				nB++
+				in := s.PhiIn(phi)
+				if in == nil || !ltLen(s, in.K) {
+					formB = false
+				}
+			})
+			if !(formB && nB > 0) {
+				bad = append(bad, "scanner.Scan() is called in the decode loop without the part counter being known to be below len(parts): after the last part another token is consumed (bytes beyond the message are read, the handler blocks on a waiting client)")
+			}
+		}
+	}
+	return bad
+}
+
+// blockReaches reports whether control can flow from a to b (a == b counts only through a cycle-free walk of successors).
+func blockReaches(a, b *ssa.BasicBlock) bool {
+	seen := map[*ssa.BasicBlock]bool{}
+	var walk func(x *ssa.BasicBlock) bool
+	walk = func(x *ssa.BasicBlock) bool {
+		for _, s := range x.Succs {
+			if s == b {
+				return true
+			}
+			if !seen[s] {
+				seen[s] = true
+				if walk(s) {
+					return true
+				}
+			}
+		}
+		return false
+	}
+	return walk(a)
 }
